@@ -856,8 +856,12 @@ func (p *PHYPayload) calculateDownlinkDataMIC(macVersion MACVersion, confFCnt ui
 func EncryptFRMPayload(key AES128Key, uplink bool, devAddr DevAddr, fCnt uint32, data []byte) ([]byte, error) {
 	pLen := len(data)
 	if pLen%16 != 0 {
-		// append with empty bytes so that len(data) is a multiple of 16
-		data = append(data, make([]byte, 16-(pLen%16))...)
+		// pad with empty bytes so that len(data) is a multiple of 16. note that
+		// this must not be done with append on the given slice, as this would
+		// overwrite the bytes following it when it has spare capacity.
+		padded := make([]byte, pLen+16-(pLen%16))
+		copy(padded, data)
+		data = padded
 	}
 
 	block, err := aes.NewCipher(key[:])
